@@ -36,7 +36,7 @@ def _init(modname, deadline):
 def _work(run):
     if _DEADLINE is not None and time.time() > _DEADLINE:
         return {'skipped': True}
-    tmo = int(os.environ.get('VERIF_RUN_TIMEOUT', '900'))
+    tmo = int(os.environ.get('VERIF_RUN_TIMEOUT', '1800'))
     faulthandler.dump_traceback_later(tmo, exit=True)
     try:
         out = _MOD.execute(run)
@@ -44,6 +44,14 @@ def _work(run):
         return out
     except BaseException:
         return {'harness_error': traceback.format_exc()}
+    finally:
+        faulthandler.cancel_dump_traceback_later()
+
+
+def _eval_case(modname, case):
+    faulthandler.dump_traceback_later(int(os.environ.get('VERIF_RUN_TIMEOUT', '1800')), exit=True)
+    try:
+        return importlib.import_module(modname).replay(case)
     finally:
         faulthandler.cancel_dump_traceback_later()
 
@@ -113,20 +121,41 @@ def run_check(modname: str, tier: str) -> int:
     deadline = (t0 + float(budget)) if budget else None
     results = [None] * len(runs)
     harness_errors = []
-    ctx = mp.get_context('fork')
+    _init(modname, deadline)
+    # Every run executes in its own fresh fork of this (warmed-up, never simulating) process, so
+    # a run's result is a function of its descriptor and the code only - not of what the worker
+    # executed before - and candidate cases can be re-evaluated from the same pristine state.
+    pool = mp.get_context('fork').Pool(processes=nproc, maxtasksperchild=1)
     try:
-        with cf.ProcessPoolExecutor(max_workers=nproc, mp_context=ctx, initializer=_init,
-                                    initargs=(modname, deadline)) as pool:
-            futs = {pool.submit(_work, run): i for i, run in enumerate(runs)}
-            done = 0
-            for fut in cf.as_completed(futs):
-                i = futs[fut]
-                results[i] = fut.result()
+        pend = {i: pool.apply_async(_work, (run,)) for i, run in enumerate(runs)}
+        tmo = int(os.environ.get('VERIF_RUN_TIMEOUT', '1800')) + 120
+        last_progress = time.time()
+        done = 0
+        while pend:
+            ready = [i for i, fut in pend.items() if fut.ready()]
+            if not ready:
+                if time.time() - last_progress > tmo:
+                    harness_errors.append(f'no run finished for {tmo}s; {len(pend)} runs pending '
+                                          '(worker died, deadlocked or timed out)')
+                    break
+                time.sleep(0.05)
+                continue
+            last_progress = time.time()
+            for i in ready:
+                try:
+                    results[i] = pend.pop(i).get()
+                except BaseException as exc:
+                    results[i] = {'harness_error': f'{type(exc).__name__}: {exc}'}
                 done += 1
                 if done % max(1, len(runs) // 10) == 0:
                     print(f'  .. {done}/{len(runs)} runs  ({time.time() - t0:.0f}s)', flush=True)
-    except cf.process.BrokenProcessPool as exc:
-        harness_errors.append(f'worker process died (timeout/deadlock or crash): {exc}')
+    except BaseException:
+        pool.terminate()
+        raise
+
+    def evaluate(case):
+        """Re-execute one case in a fresh fork of the pristine parent state."""
+        return pool.apply_async(_eval_case, (modname, case)).get(timeout=tmo)
 
     # ---- aggregate in run-index order (independent of the number of worker processes)
     agg = {'n_runs': 0, 'skipped': 0, 'n_eval': 0, 'steps': 0, 'counters': {}, 'sigs': set(),
@@ -165,11 +194,28 @@ def run_check(modname: str, tier: str) -> int:
             continue
         seen[key] = vio
         vio['count'] = 1
-    n_confirm = 0
+    # phase A: shrink the first case of each signature, every candidate in a fresh fork
+    shrunk = []
     for key, vio in seen.items():
-        if n_confirm >= int(os.environ.get('VERIF_MAX_REPLAYS', '6')):
+        if len(shrunk) >= int(os.environ.get('VERIF_MAX_REPLAYS', '6')):
             break
-        n_confirm += 1
+        try:
+            small = mod.shrink(vio, evaluate) if hasattr(mod, 'shrink') else evaluate(vio['case'])
+        except BaseException as exc:
+            small = None
+            harness_errors.append(f'shrinking {key}: {type(exc).__name__}: {exc}')
+        if small is None:
+            harness_errors.append(f'violation {key} of run {vio["run_index"]} does not reproduce '
+                                  f'from a pristine process state: {vio.get("observed", "")[:300]}')
+            continue
+        small['count'] = vio['count']
+        shrunk.append((key, small))
+    # the pool must be gone before any subprocess is spawned from this (multi-threaded) process:
+    # a worker forked while subprocess holds its exec-error pipe would keep that pipe open
+    pool.terminate()
+    pool.join()
+    # phase B: write the replay files and confirm each in a fresh interpreter
+    for key, vio in shrunk:
         name = f'{prop}-{kernel.sha(key)}.json'
         ent = match_known(vio, known)
         sub = 'known' if ent else ''
@@ -181,7 +227,8 @@ def run_check(modname: str, tier: str) -> int:
                        'clause': vio['clause'], 'signature': vio['signature'],
                        'observed': vio.get('observed', ''), 'case': vio['case']}, fil, indent=1)
         rep = fresh_replay(pth)
-        if not rep.get('reproduced') or sig_key(rep.get('signature', {})) != key:
+        if not rep.get('reproduced') or \
+                sig_key(rep.get('signature', {})) != sig_key(vio['signature']):
             harness_errors.append(f'replay {pth} did not reproduce in a fresh interpreter: {rep}')
             continue
         if ent:
